@@ -6,9 +6,10 @@
    Model/World.v (honest-browser histories, each event naming an arbitrary
    instance state), the monitor is Spec/WorldSpec.c04_browser (the same boolean
    the correspondence check applies to the Go implementation), the proofs are
-   in Proofs/W_C04.v. *)
+   in Proofs/W_C04.v (stateless, steady) and Proofs/W_C04S.v (completion step,
+   monitor Spec/WorldSpec.c04_step). *)
 From VF Require Import Base.Prelude Model.Cache Model.Session Model.Middleware Model.World Corr.WorldCorr Spec.WorldSpec.
-From VF Require Import Proofs.WorldBase Proofs.W_C07 Proofs.W_C04 Proofs.W_BExample.
+From VF Require Import Proofs.WorldBase Proofs.W_C07 Proofs.W_C04 Proofs.W_BExample Proofs.W_Example Proofs.W_C04S.
 Open Scope N_scope.
 
 (* A gated request whose cookies hold an authenticated session for ID token t
@@ -86,3 +87,34 @@ Proof.
   split; [exact b_ex_env_ok|]. split; [exact b_ex_cfg_ok|]. split; [exact (c4_ex_events_sound 80)|].
   vm_compute. repeat split.
 Qed.
+
+(* Completion.  For EVERY instance state (ready or not, any caches), instant,
+   request, random draw and provider answer, the response of one step satisfies
+   Spec/WorldSpec.c04_step: if the provider answered with tokens (AOk id _) and
+   the step made exactly one code exchange and answered 302 to a local path (a
+   completed login), or made exactly one refresh grant and forwarded the request
+   (a completed refresh), then that very response stores an authenticated main
+   cookie and ID token id (stores_session) -- the session the later requests of
+   C04_steady are served from is in the browser as soon as the login or refresh
+   is reported complete.  Only env_ok is needed (the empty string is no token,
+   every token needs at least one chunk). *)
+Theorem C04_completion_step : forall (E : env) (cfg : config) (st : inst) (now : time) (rq : request)
+    (rnd : istr * istr * istr) (ans : option answer),
+  env_ok E -> c04_step E ans (snd (serve E cfg st now rq rnd ans)) = true.
+Proof. exact c04_serve. Qed.
+Print Assumptions C04_completion_step.
+
+(* Non-vacuity: on the example deployment of Proofs/W_Example.v, the callback of
+   a browser in the middle of a login (state 13, nonce 12), answered with ID
+   token 10 and refresh token 16, takes the guarded branch of c04_step: 302 to a
+   local path after exactly one code exchange, and the response stores the
+   authenticated session of token 10. *)
+Example C04_completion_nonvacuous :
+  let r := snd (serve exE excfg ex_inst ex_now (ex_callback ex_jar_pending) ex_rnd (Some (AOk 10 16))) in
+  env_ok exE
+  /\ r_status r = 302 /\ is_lpath (r_loc r) = true
+  /\ r_calls r = [PExchange 14 20 21 0]
+  /\ emits_auth r = true /\ emitted_id exE r = Some (TTok 10)
+  /\ stores_session exE 10 r = true
+  /\ c04_step exE (Some (AOk 10 16)) r = true.
+Proof. split; [exact exE_ok|]. vm_compute. repeat split. Qed.
